@@ -416,6 +416,69 @@ def region_from_edge(fn, dst, stop=()):
 # ---------------------------------------------------------------------------
 # condition descriptors and dominating guards
 
+_PROMOTED = {}
+_ACCESSORS = []   # (name, path, template): small bool accessors of the reference tree, `fn is_sync(&self) -> bool { self.kind == Kind::Sync }`
+
+
+def register_facts(F):
+    """promoted constant values and accessor templates of a fact base (called by facts.load)"""
+    for path, v in F.fns.items():
+        fn = v[0]
+        if fn.kind == "Promoted":
+            aggs = [s_["r"]["adt"] for b in fn.blocks for s_ in b["s"] if s_["r"]["k"] == "agg" and not s_["r"].get("ops")]
+            if len(aggs) == 1:
+                _PROMOTED[path] = aggs[0].split("::", 2)[-1] if aggs[0].count("::") >= 2 else aggs[0]
+
+
+def accessor_template(fn):
+    """description of what a one-expression `fn(&self) -> bool` returns, in terms of ('arg', 1); None if it is not that simple"""
+    if fn.argc != 1 or fn.locals[0] != "bool" or len([b for b in fn.reachable]) > 3 or fn.kind not in ("Fn", "AssocFn"):
+        return None
+    rets = []
+    for bi in sorted(fn.reachable):
+        for s_ in fn.blocks[bi]["s"]:
+            if s_["d"]["l"] == 0 and not s_["d"]["p"]:
+                rets.append(desc_operand(fn, s_["r"].get("a")) if s_["r"]["k"] == "use" else None)
+        t = fn.blocks[bi]["t"]
+        if t["k"] == "call" and t["dest"]["l"] == 0 and not t["dest"]["p"]:
+            rets.append(desc_local(fn, 0))
+        if t["k"] == "switch":
+            return None
+    if len(rets) != 1 or rets[0] is None or "('?',)" in str(rets[0]) or "('arg', 1)" not in str(rets[0]):
+        return None
+    return rets[0]
+
+
+def _tmatch(tm, d, bind):
+    if tm == ("arg", 1):
+        if "R" in bind:
+            return bind["R"] == d
+        bind["R"] = d
+        return True
+    if isinstance(tm, (tuple, list)) and isinstance(d, (tuple, list)):
+        if len(tm) != len(d):
+            return False
+        # the resolved callee path (last element of a call description) may differ in generics: compare names only
+        if tm and tm[0] == "call" and d and d[0] == "call":
+            return tm[1] == d[1] and _tmatch(tm[2], d[2], bind)
+        return all(_tmatch(a, b, bind) for a, b in zip(tm, d))
+    return tm == d
+
+
+def canonical_guard(d):
+    """the accessor call a guard condition is the body of, when an accessor of the reference tree was written out at
+    its use (`self.kind == ChannelQueueKind::Sync` for `self.is_sync()`); None otherwise"""
+    if not isinstance(d, tuple):
+        return None
+    for name, path, tm in _ACCESSORS:
+        if d[0] == "call" and d[1] == name:
+            continue
+        b = {}
+        if _tmatch(tm, d, b) and "R" in b:
+            return ("call", name, (b["R"],), path)
+    return None
+
+
 def desc_operand(fn, o, depth=0):
     """structural description of where an operand's value comes from"""
     if depth > 10 or o is None:
@@ -424,6 +487,9 @@ def desc_operand(fn, o, depth=0):
         if "int" in o:
             return ("const", int(o["int"]))
         if "uneval" in o:
+            pv = _PROMOTED.get(o.get("dbg", ""))
+            if pv is not None:
+                return ("constval", pv)     # a promoted constant enum value: `== ChannelQueueKind::Sync`
             return ("constpath", o["uneval"])
         return ("constdbg", o.get("dbg", ""))
     p = op_place(o)
@@ -439,7 +505,7 @@ def desc_place(fn, p, depth=0):
     if fields or variants:
         base = desc_local(fn, l, depth + 1)
         return ("field", base, tuple(fields), tuple(variants))
-    return desc_local(fn, l, depth + 1)
+    return desc_local(fn, l, depth + 0.02)
 
 
 def desc_local(fn, l, depth=0):
@@ -456,7 +522,7 @@ def desc_local(fn, l, depth=0):
     r = sd[1]
     k = r["k"]
     if k == "use":
-        return desc_operand(fn, r["a"], depth + 1)
+        return desc_operand(fn, r["a"], depth + 0.02)    # a plain copy adds no structure (helper parameters are copies)
     if k in ("ref", "rawptr"):
         return desc_place(fn, r["a"], depth + 1)
     if k == "cast":
@@ -472,6 +538,11 @@ def desc_local(fn, l, depth=0):
     return ("?",)
 
 
+def scope_prefix(path):
+    p = re.sub(r"::\{closure#\d+\}", "", path)
+    return p.rsplit("::", 1)[0]
+
+
 def dominating_guards(F, fn, b, _depth=0):
     """[(switch_block, desc, outcome)] for every switch one of whose edges dominates b.
     outcome: True/False for bool switches, variant name (or raw value) for discr switches.
@@ -479,6 +550,13 @@ def dominating_guards(F, fn, b, _depth=0):
     `true` in some blocks and `false` in others) stands for the guards common to every block that
     assigns the value taken."""
     out = _dominating_guards(F, fn, b)
+    if _ACCESSORS and _depth == 0:
+        extra_c = []
+        for w, d, o in out:
+            cg = canonical_guard(d)
+            if cg is not None and cg[3].rsplit("::", 1)[0] in (fn.path.rsplit("::", 1)[0], scope_prefix(fn.path)):
+                extra_c.append((w, cg, o))
+        out = out + extra_c
     if _depth >= 3:
         return out
     extra = []
